@@ -52,7 +52,15 @@ Ids == { Pid1, VPid(NodeU, <<255,255,255,255>>, <<0,0,0,0>>, <<1,2,3,4>>, <<>>),
          VRef(Node1, <<0,0,0,255>>, <<<<255,255,255,255>>>>, <<>>), VRef(Node1, <<0,0,0,4>>, <<<<0,4,0,0>>, <<255,255,255,255>>, <<0,0,0,1>>>>, <<>>) }
        \cup WideIds
 Exports == { VExport(A(<<109>>), A(<<102>>), 3), VExport(A(<<195,169>>), A(<<>>), 255), VExport(A(Rep(97, 256)), A(<<102>>), 0) }
-Leaves == Ints \cup Floats \cup Atoms \cup Bins \cup Ids \cup Exports \cup {VNil}
+\* every byte value in turn: as a small integer, as the low / a middle / the top digit of integers around the 32- and 64-bit borders and of a
+\* nine-digit one, as a one-byte binary, and every ASCII character as a one-letter atom (what a value is encoded as, or decoded to, must not
+\* depend on which byte values it happens to contain)
+SweepInts == UNION { { VInt(FALSE, TrimHi(<<x>>)), VInt(TRUE, TrimHi(<<(x + 1) % 256, (x + 1) \div 256>>)), VInt(FALSE, TrimHi(<<1, 0, 0, x>>)), VInt(TRUE, TrimHi(<<1, x, 0, 1>>)),
+                       VInt(FALSE, TrimHi(<<1, 0, 0, 0, 0, 0, 0, x>>)), VInt(FALSE, <<x, 0, 0, 0, 0, 0, 0, 0, 1>>) } : x \in 0..255 }
+\* the atoms the library keeps pre-built (types.rs COMMON_ATOMS) and a few more that mean something in the protocol: each must stay itself
+WellKnownAtoms == { A(<<111,107>>), A(<<101,114,114,111,114>>), A(<<116,114,117,101>>), A(<<102,97,108,115,101>>), A(<<110,105,108>>), A(<<117,110,100,101,102,105,110,101,100>>), A(<<110,111,114,109,97,108>>), A(<<115,104,117,116,100,111,119,110>>), A(<<105,110,102,105,110,105,116,121>>), A(<<98,97,100,97,114,103>>), A(<<98,97,100,97,114,105,116,104>>), A(<<98,97,100,109,97,116,99,104>>), A(<<110,111,112,114,111,99>>), A(<<116,105,109,101,111,117,116>>), A(<<110,111,99,111,110,110,101,99,116,105,111,110>>), A(<<114,101,120>>), A(<<69,88,73,84>>), A(<<68,79,87,78>>) }
+SweepLeaves == SweepInts \cup WellKnownAtoms \cup { VBin(<<x>>) : x \in 0..255 } \cup { A(<<x>>) : x \in 33..126 }
+Leaves == Ints \cup Floats \cup Atoms \cup Bins \cup Ids \cup Exports \cup {VNil} \cup SweepLeaves
 
 \* reduced leaf set for building containers
 Small == { Zero, SmallInt(1), VInt(FALSE, <<0,1>>), VInt(FALSE, <<0,0,0,128>>), A(<<111,107>>), A(<<195,169>>), VNil, VBin(<<1>>), VFloat(F15),
@@ -85,8 +93,8 @@ D2 == D1
       \cup { VList(<<a>>, b) : a \in Containers1, b \in {VNil, SmallInt(1)} }
       \cup { VMap(CanonMap(<< <<a, b>>, <<b, a>> >>)) : a \in Containers1, b \in {SmallInt(1)} }
       \cup { MkFun(<<a>>) : a \in Containers1 }
-      \cup { VTuple(<<l>>) : l \in Leaves } \cup { VList(<<l>>, VNil) : l \in Leaves \ (WideIds \cup ExtraFloats) }
-      \cup { VMap(<< <<l, l>> >>) : l \in Leaves \ (WideIds \cup ExtraFloats) }
+      \cup { VTuple(<<l>>) : l \in Leaves } \cup { VList(<<l>>, VNil) : l \in Leaves \ (WideIds \cup ExtraFloats \cup SweepLeaves) }
+      \cup { VMap(<< <<l, l>> >>) : l \in Leaves \ (WideIds \cup ExtraFloats \cup SweepLeaves) }
 \* ---- C10: identifiers in plain and node-local form, in every context that can contain them
 Hashes == { <<9,8,7,6,5,4,3,2>>, <<0,0,0,0,0,0,0,0>>, <<255,255,255,255,255,255,255,255>> }
 IdPlain == { Pid1, VPid(NodeU, <<255,255,255,255>>, <<0,0,0,0>>, <<1,2,3,4>>, <<>>), VPid(A(Rep(97, 256)), <<0,0,0,1>>, <<0,0,0,2>>, <<0,0,0,3>>, <<>>),
